@@ -3,34 +3,61 @@
 Correspondence of lean/Hgxv/Model/C20.lean (+ C20Cent.lean) with hypergraphx.representations.projections,
 hypergraphx.measures.s_centralities, TemporalHypergraph.subhypergraph and hypergraphx.measures.eigen_centralities,
 and independent property oracles on the implementation (own projections, own Brandes / BFS in exact rationals,
-networkx on the own projection, scipy.linalg.expm, eigen-equation residuals, relabelling)."""
+networkx on the own projection, log diag expm(A) by scipy and by an own overflow-free scaling-and-squaring, the
+eigen-equation residuals at the bound the documented tolerance guarantees, relabelling).  Every centrality is also
+called on objects reached through histories: temporary items removed again, removal + re-insertion, the original of
+a copy mutated afterwards, the copy of an original mutated afterwards, the same object mutated between two calls."""
 import contextlib
 import io
+import os
+import sys
+import itertools
 import math
+import random
 import signal
 from collections import deque
 from fractions import Fraction
 
 import hgxv
 
-RULE = ("three streams from one PRNG. (1) static: random Hypergraph, 3-8 nodes from a sparse integer universe or a string "
-        "universe that contains 'E'/'N' labels ('ANNE', 'E1', 'N0', ...), 1-7 hyperedges of size 1-4 with repeated overlaps, "
+if "numpy" not in sys.modules:
+    # small matrices only: many BLAS threads cost more than they give (and the budget is wall time)
+    for _v in ("OMP_NUM_THREADS", "OPENBLAS_NUM_THREADS", "MKL_NUM_THREADS"):
+        os.environ.setdefault(_v, "2")
+
+RULE = ("four streams from one PRNG. (1) static: random Hypergraph, 3-8 labels from a sparse integer universe or a string "
+        "universe that contains 'E'/'N' labels ('ANNE', 'E1', 'N0', ...), hyperedges of size 1-4 with repeated overlaps, "
         "isolated nodes; s in {1,2,3}; s_betweenness/s_closeness/s_*_nodes, subhypergraph_centrality, an injective "
-        "non-monotone relabelling. (2) temporal: the same universes, 2-9 (time, hyperedge) records over 1-4 times; the four "
-        "averaged functions. (3) eigen: connected k-uniform hypergraphs, k in {3,4}, 4-9 nodes 0..N-1; CEC/HEC from 3 (quick) "
-        "or 6 (thorough) seeded random starts, one-step runs from a dyadic start, a permutation of the labels. A case is "
-        "distinct by its canonical input; non-trivial when the centralities it produced take >= 2 distinct values")
+        "non-monotone relabelling. (2) temporal: the same universes, (time, hyperedge) records over 1-4 times; the four "
+        "averaged functions. (3) eigen: connected k-uniform hypergraphs, k in {3,4}, on 0..N-1: random ones on 4-9 nodes and "
+        "slow-mixing families (chains with overlap 1 or 2, cycles, two nearly equal complete blocks joined by a bridge, "
+        "block + tail, hub) with N up to ~65, nodes shuffled; CEC/HEC with DEFAULT arguments from recorded random starts, "
+        "one-step runs from a dyadic start, a permutation of the labels. (4) dense: all / a random part of the hyperedges "
+        "of 1-3 sizes on 6-14 nodes, or several large overlapping hyperedges (one fixed hyperedge of 760 members), with "
+        "pendant hyperedges, isolated nodes and a second component: adjacency spectral radius from ~5 to ~7000; "
+        "subhypergraph_centrality only. In every stream 60-65 % of the objects are reached through a history (random "
+        "walk of add/remove operations, in-place mutation between two calls with and without a change of the node / "
+        "hyperedge counts, copies). A case is distinct by its canonical input (construction mode and contents); "
+        "non-trivial when the centralities it produced take >= 2 distinct values")
 ASSUMPTIONS = ["labels of one hypergraph are mutually comparable (all int or all str) and are mapped to their rank before they reach the model",
                "node labels are not tuples (a node never equals a hyperedge as a dict key)",
                "CEC/HEC: connected k-uniform hypergraphs with k in {3,4} on nodes 0..N-1 (as the routines demand)",
-               "sub-hypergraph centrality: index i of the returned array is the i-th smallest label (LabelEncoder = rank)"]
+               "CEC/HEC eigen-equation: demanded at the bound that the documented defaults guarantee (CEC tol=1e-7, max_iter=1000; "
+               "HEC tol=1e-6, max_iter=100) whenever the documented iteration, run by the harness from the recorded random start, "
+               "meets its stopping test within the documented budget; otherwise only positivity and normalisation",
+               "sub-hypergraph centrality: index i of the returned array is the i-th smallest label (LabelEncoder = rank); tolerance "
+               "1e-8 relative plus 1e-13 e^((radius - value_i) / 2), the effect of a 1e-15 absolute error of the eigenvector entries: nodes "
+               "whose value lies ~60 or more below the adjacency spectral radius (isolated nodes, small components, ends of pendant paths next "
+               "to a dense core) are ill-conditioned for the documented eigh + log-sum-exp route and only a finite value is demanded of them"]
 TRUSTED = ["networkx betweenness_centrality / closeness_centrality (parameter `cent` of the theorems; compared on every case with "
            "an own Brandes / BFS computation in exact rationals)",
-           "numpy.linalg.eigh, scipy.special.logsumexp (compared with log diag scipy.linalg.expm within 1e-8)",
+           "numpy.linalg.eigh, scipy.special.logsumexp (compared with log diag scipy.linalg.expm within 1e-8 on small inputs and with an "
+           "own subtraction-free scaling-and-squaring in log space on dense / large ones)",
            "convergence of the power iterations to a positive vector (Perron-Frobenius; checked per run: positivity, "
-           "normalisation, eigen-equation residual <= 1e-5)",
+           "normalisation, eigen-equation residual <= lambda_max * tol for CEC, <= c m M^(m-1) tol for HEC, the bounds of "
+           "C20_cec_returned / C20_hec_residual_sharp at the stopping rule)",
            "float arithmetic vs exact rationals: tolerance 1e-9 on centrality values; dyadic inputs where equality is exact"]
-BUDGET_S = {"quick": 50, "thorough": 800}
+BUDGET_S = {"quick": 55, "thorough": 840}
 
 TOL = 1e-9
 
@@ -173,6 +200,329 @@ class StubNx:
         self.nx.betweenness_centrality, self.nx.closeness_centrality = self.old
 
 
+
+
+# ------------------------------------------------------------------------------------------
+# log diag expm(A) without overflow, sub-hypergraph centrality on dense / large inputs
+
+def adjacency_of(nodes_sorted, edges):
+    import numpy as np
+    idx = {x: i for i, x in enumerate(nodes_sorted)}
+    A = np.zeros((len(nodes_sorted), len(nodes_sorted)))
+    for e in edges:
+        ii = [idx[x] for x in e]
+        for a in ii:
+            for b in ii:
+                if a != b:
+                    A[a, b] += 1
+    return A
+
+
+def components_of(A):
+    import numpy as np
+    n = len(A)
+    seen, out = [False] * n, []
+    for s in range(n):
+        if seen[s]:
+            continue
+        comp, seen[s] = [s], True
+        for u in comp:
+            for w in np.nonzero(A[u])[0]:
+                if not seen[w]:
+                    seen[w] = True
+                    comp.append(int(w))
+        out.append(sorted(comp))
+    return out
+
+
+def _lde_block(A):
+    import numpy as np
+    n = len(A)
+    nrm = float(np.max(np.sum(A, axis=1))) if n else 0.0
+    s = max(0, int(math.ceil(math.log2(nrm))) + 1) if nrm > 0.5 else 0
+    B = A / (2.0 ** s)
+    T, M = np.eye(n), np.eye(n)
+    for k in range(1, 20):
+        T = T @ B / k
+        M = M + T
+    ls = 0.0
+    for _ in range(s):
+        M = M @ M
+        mx = float(np.max(M))
+        M = M / mx
+        ls = 2 * ls + math.log(mx)
+    with np.errstate(divide="ignore"):
+        return np.log(np.diag(M)) + ls
+
+
+def log_diag_expm(A):
+    """log diag exp(A) for an entrywise NON-NEGATIVE symmetric A: Taylor series of exp(A / 2^s) (row sums <= 1/2, every
+    term >= 0) and s squarings, the common factor of the matrix kept as a separate logarithm; one connected component at
+    a time.  Nothing is ever subtracted, so every entry keeps its relative accuracy (error of the logarithm ~ 2^s n eps),
+    and nothing overflows - independent of eigh / logsumexp"""
+    import numpy as np
+    out = np.zeros(len(A))
+    for comp in components_of(A):
+        out[comp] = _lde_block(A[np.ix_(comp, comp)])
+    return out
+
+
+def eigh_route(A):
+    """own log-sum-exp over an own eigendecomposition (second witness) and the spectral radius"""
+    import numpy as np
+    ev, U = np.linalg.eigh(A)
+    with np.errstate(divide="ignore", invalid="ignore"):
+        val = ev[-1] + np.log((U ** 2) @ np.exp(ev - ev[-1]))
+    return val, float(ev[-1])
+
+
+def subhg_tolerance(want, radius):
+    """1e-8 relative, plus what an absolute error eta ~ 1e-15 of the eigenvector entries does to log sum_j U_ij^2 e^(ev_j): the dominant
+    eigenvectors enter node i with weight ~ e^(want_i - radius), so the value moves by ~ 2 eta e^((radius - want_i) / 2) - negligible
+    unless the node sits ~ 60 below the spectral radius (isolated nodes / small components / ends of pendant paths next to a dense
+    core), where the eigh route has no accuracy left (the check then only demands a finite value)"""
+    import numpy as np
+    return 1e-8 * np.maximum(1, np.abs(want)) + 1e-13 * np.exp(np.minimum(700.0, (radius - want) / 2))
+
+
+# ------------------------------------------------------------------------------------------
+# histories: the content an object must have after a sequence of operations (independent simulation)
+
+class BadOps(Exception):
+    pass
+
+
+def sim_static(ops):
+    """(nodes, hyperedges) of a Hypergraph after `ops`; BadOps when an operation is not applicable"""
+    nodes, edges = {}, {}
+    for op in ops:
+        k, a = op[0], op[1]
+        if k == "add_edge":
+            e = tuple(sorted(a))
+            if len(set(e)) != len(e) or not e:
+                raise BadOps(op)
+            edges.setdefault(e, 1)
+            for x in e:
+                nodes.setdefault(x, 1)
+        elif k == "rm_edge":
+            e = tuple(sorted(a))
+            if e not in edges:
+                raise BadOps(op)
+            del edges[e]
+        elif k == "add_node":
+            nodes.setdefault(a, 1)
+        elif k == "rm_node":
+            if a not in nodes:
+                raise BadOps(op)
+            del nodes[a]
+            edges = {e: 1 for e in edges if a not in e}
+        else:
+            raise BadOps(op)
+    return list(nodes), list(edges)
+
+
+def apply_static(h, ops, f=None):
+    f = f or (lambda x: x)
+    for op in ops:
+        k, a = op[0], op[1]
+        if k == "add_edge":
+            h.add_edge(tuple(f(x) for x in a))
+        elif k == "rm_edge":
+            h.remove_edge(tuple(f(x) for x in a))
+        elif k == "add_node":
+            h.add_node(f(a))
+        elif k == "rm_node":
+            h.remove_node(f(a))
+
+
+def sim_temporal(ops):
+    recs = {}
+    for op in ops:
+        k, e, t = op[0], tuple(sorted(op[1])), op[2]
+        if k == "add":
+            recs.setdefault((t, e), 1)
+        elif k == "rm":
+            if (t, e) not in recs:
+                raise BadOps(op)
+            del recs[(t, e)]
+        else:
+            raise BadOps(op)
+    return list(recs)
+
+
+def apply_temporal(T, ops, f=None):
+    f = f or (lambda x: x)
+    for op in ops:
+        e = tuple(f(x) for x in op[1])
+        if op[0] == "add":
+            T.add_edge(e, op[2])
+        else:
+            T.remove_edge(e, op[2])
+
+
+VIAS = ("history", "mutate", "orig_of_copy", "copy_of_orig")
+
+
+def pick_via(rng):
+    r = rng.random()
+    return None if r < 0.37 else "history" if r < 0.57 else "mutate" if r < 0.75 else "orig_of_copy" if r < 0.87 else "copy_of_orig"
+
+
+def instances(case, new, apply_ops, sim, fresh_ops, f=None):
+    """the objects a case speaks of, one after the other, each with the content it must have: (tag, object, content).
+    The generator mutates only AFTER the consumer has finished with the object it was handed before."""
+    via = case.get("via")
+    if not via:
+        h = new()
+        apply_ops(h, fresh_ops, f)
+        yield "fresh", h, sim(fresh_ops)
+        return
+    pre = case["pre"]
+    h = new()
+    apply_ops(h, pre, f)
+    post = case.get("post") or []
+    if via == "history":
+        yield "history", h, sim(pre)
+    elif via == "mutate":
+        yield "before the mutation", h, sim(pre)
+        apply_ops(h, post, f)
+        yield "same object after the mutation", h, sim(list(pre) + list(post))
+    elif via == "orig_of_copy":
+        c = h.copy()
+        apply_ops(c, post, f)
+        yield "original of a copy mutated afterwards", h, sim(pre)
+        yield "mutated copy", c, sim(list(pre) + list(post))
+    elif via == "copy_of_orig":
+        c = h.copy()
+        apply_ops(h, post, f)
+        yield "copy of an original mutated afterwards", c, sim(pre)
+        yield "mutated original", h, sim(list(pre) + list(post))
+
+
+def each_instance(ctx, case, gen):
+    it = iter(gen)
+    while True:
+        r = guard(next, it, None)
+        if r[0] != "ok":
+            ctx.violation(case, f"building the object ({case.get('via') or 'fresh'}) raised {r[1]}")
+            return
+        if r[1] is None:
+            return
+        yield r[1]
+
+
+# ------------------------------------------------------------------------------------------
+# the documented power iterations, run by the harness (vectorised, from a given start)
+
+def own_power(W, x0, max_iter=1000, tol=1e-7):
+    """power_method as documented: returns (x, passes, residuals of the passes)"""
+    import numpy as np
+    x = np.array(x0, dtype=float)
+    x = x / np.linalg.norm(x)
+    res, k, table = math.inf, 0, []
+    while res > tol and k < max_iter:
+        y = W @ x
+        yn = np.linalg.norm(y)
+        res = float(np.linalg.norm(x - y / yn))
+        table.append(res)
+        x = y / yn
+        k += 1
+    return x, k, table
+
+
+def hec_apply(E, n, x):
+    """sum over the hyperedges of a node of the product of the other members (E: array edges x k)"""
+    import numpy as np
+    y = np.zeros(n)
+    k = E.shape[1]
+    for p in range(k):
+        others = [q for q in range(k) if q != p]
+        np.add.at(y, E[:, p], np.prod(x[E[:, others]], axis=1))
+    return y
+
+
+def hec_step(E, n, m, x):
+    import numpy as np
+    r = hec_apply(E, n, x) ** (1.0 / m)
+    return np.sign(r[0]) * r / np.sum(np.abs(r))
+
+
+def own_hec(E, n, m, x0, max_iter=100, tol=1e-6):
+    """HEC_centrality as documented: returns (x, passes, distances of the passes, stopped by the test)"""
+    import numpy as np
+    x = np.array(x0, dtype=float)
+    x = x / np.sum(np.abs(x))
+    table = []
+    for _ in range(max_iter):
+        nx_ = hec_step(E, n, m, x)
+        d = float(np.linalg.norm(x - nx_))
+        table.append(d)
+        if d <= tol:
+            return x, len(table), table, True
+        x = nx_
+    return x, len(table), table, False
+
+
+class RecordStart:
+    """np.random.rand / np.random.uniform still draw, and what they return is recorded: the random start of the iteration"""
+
+    def __enter__(self):
+        import numpy as np
+        self.np = np
+        self.old = (np.random.rand, np.random.uniform)
+        self.starts = []
+        old, starts = self.old, self.starts
+
+        def rand(*a, **k):
+            v = old[0](*a, **k)
+            starts.append(np.array(v, dtype=float, copy=True))
+            return v
+
+        def uniform(*a, **k):
+            v = old[1](*a, **k)
+            starts.append(np.array(v, dtype=float, copy=True))
+            return v
+        np.random.rand, np.random.uniform = rand, uniform
+        return self
+
+    def __exit__(self, *a):
+        self.np.random.rand, self.np.random.uniform = self.old
+
+
+class CountPasses:
+    """counts the passes of the two loops of eigen_centralities: calls of np.dot (power_method) and of apply (HEC)"""
+
+    class _Np:
+        def __init__(self, np, owner):
+            self.__dict__["_np"] = np
+            self.__dict__["_owner"] = owner
+
+        def __getattr__(self, name):
+            return getattr(self._np, name)
+
+        def dot(self, *a, **k):
+            self._owner.dots += 1
+            return self._np.dot(*a, **k)
+
+    def __init__(self, ec):
+        self.ec, self.dots, self.applies = ec, 0, 0
+
+    def __enter__(self):
+        ec = self.ec
+        self.old = (ec.np, ec.apply)
+        ec.np = CountPasses._Np(self.old[0], self)
+        old_apply = self.old[1]
+
+        def apply(*a, **k):
+            self.applies += 1
+            return old_apply(*a, **k)
+        ec.apply = apply
+        return self
+
+    def __exit__(self, *a):
+        self.ec.np, self.ec.apply = self.old
+
+
 # ------------------------------------------------------------------------------------------
 # generators
 
@@ -185,65 +535,370 @@ def gen_labels(rng, n):
     return rng.sample(range(0, 30), n)
 
 
-def gen_edges(rng, labels, lo=1, hi=7, sizes=(1, 2, 2, 2, 3, 3, 3, 4)):
+def gen_edge(rng, labels, edges, sizes=(1, 2, 2, 2, 3, 3, 3, 4)):
+    k = min(len(labels), rng.choice(sizes))
+    if edges and rng.random() < 0.5:
+        # overlap an earlier hyperedge in 1..3 nodes so that s = 2, 3 are exercised
+        base = list(rng.choice(edges))
+        keep = rng.sample(base, min(len(base), rng.randint(1, 3)))
+        rest = [x for x in labels if x not in keep]
+        e = keep + rng.sample(rest, max(0, min(len(rest), k - len(keep))))
+    else:
+        e = rng.sample(labels, k)
+    rng.shuffle(e)
+    return tuple(e)
+
+
+def gen_edges(rng, labels, lo=1, hi=7):
     edges = []
     for _ in range(rng.randint(lo, hi)):
-        k = min(len(labels), rng.choice(sizes))
-        if edges and rng.random() < 0.5:
-            # overlap an earlier hyperedge in 1..3 nodes so that s = 2, 3 are exercised
-            base = list(rng.choice(edges))
-            keep = rng.sample(base, min(len(base), rng.randint(1, 3)))
-            rest = [x for x in labels if x not in keep]
-            e = keep + rng.sample(rest, max(0, min(len(rest), k - len(keep))))
-        else:
-            e = rng.sample(labels, k)
-        rng.shuffle(e)
-        edges.append(tuple(e))
+        edges.append(gen_edge(rng, labels, edges))
     return edges
+
+
+def walk_static(rng, labels, ops, steps, swap=False):
+    """continues the history `ops` by `steps` applicable random operations (additions favoured; removed hyperedges are
+    re-inserted with preference); `swap`: one hyperedge is replaced by another one of the same size over the present nodes,
+    so that the node and hyperedge counts stay what they were"""
+    ops = [list(o) for o in ops]
+    removed = []
+    nodes, edges = sim_static(ops)
+    if swap and edges and len(nodes) >= 2:
+        e = rng.choice(edges)
+        for _ in range(30):
+            f = tuple(sorted(rng.sample(nodes, len(e))))
+            if f not in edges:
+                return ops + [["rm_edge", list(e)], ["add_edge", list(f)]]
+    for _ in range(steps):
+        nodes, edges = sim_static(ops)
+        r = rng.random()
+        if r < 0.55 or not edges:
+            if removed and rng.random() < 0.4:
+                e = removed.pop(rng.randrange(len(removed)))
+            else:
+                e = gen_edge(rng, labels, edges)
+            ops.append(["add_edge", list(e)])
+        elif r < 0.77:
+            e = rng.choice(edges)
+            removed.append(e)
+            ops.append(["rm_edge", list(e)])
+        elif r < 0.87:
+            ops.append(["add_node", rng.choice(labels)])
+        elif nodes:
+            x = rng.choice(nodes)
+            removed.extend(e for e in edges if x in e)
+            ops.append(["rm_node", x])
+    return ops
 
 
 def gen_static(rng):
     n = rng.randint(3, 8)
     labels = gen_labels(rng, n)
-    edges = gen_edges(rng, labels)
-    iso = [x for x in labels if rng.random() < 0.2]
-    first = rng.random() < 0.5
-    return {"kind": "static", "labels": labels, "edges": edges, "isolated": iso, "iso_first": first}
+    via = pick_via(rng)
+    if via is None:
+        edges = gen_edges(rng, labels)
+        iso = [x for x in labels if rng.random() < 0.2]
+        return {"kind": "static", "labels": labels, "edges": edges, "isolated": iso, "iso_first": rng.random() < 0.5}
+    for _ in range(50):
+        pre = walk_static(rng, labels, [], rng.randint(4, 14))
+        nodes, edges = sim_static(pre)
+        # now and then an object that has lost all its hyperedges
+        if (edges or rng.random() < 0.1) and len(nodes) >= 2 and any(o[0].startswith("rm") for o in pre):
+            break
+    case = {"kind": "static", "labels": labels, "via": via, "pre": pre}
+    if via != "history":
+        for _ in range(50):
+            post = walk_static(rng, labels, pre, rng.randint(1, 4), swap=rng.random() < 0.45)[len(pre):]
+            after = sim_static(pre + post)
+            if (set(after[0]), set(after[1])) != (set(nodes), set(edges)) and (after[1] or rng.random() < 0.15):
+                break
+        case["post"] = post
+    return case
+
+
+def walk_temporal(rng, labels, ops, steps, tmax):
+    ops = [list(o) for o in ops]
+    removed = []
+    for _ in range(steps):
+        recs = sim_temporal(ops)
+        r = rng.random()
+        if r < 0.68 or not recs:
+            if removed and rng.random() < 0.4:
+                t, e = removed.pop(rng.randrange(len(removed)))
+            elif recs and rng.random() < 0.25:
+                # a hyperedge that exists at another time
+                e = rng.choice(recs)[1]
+                t = rng.randint(1, tmax)
+            else:
+                e, t = gen_edge(rng, labels, [x for _, x in recs]), rng.randint(1, tmax)
+            ops.append(["add", list(e), t])
+        else:
+            t, e = rng.choice(recs)
+            removed.append((t, e))
+            ops.append(["rm", list(e), t])
+    return ops
 
 
 def gen_temporal(rng):
     n = rng.randint(3, 7)
     labels = gen_labels(rng, n)
-    edges = gen_edges(rng, labels, 2, 9)
     tmax = rng.randint(1, 4)
-    times = [rng.randint(1, tmax) for _ in edges]
-    if rng.random() < 0.5 and len(edges) >= 2:
-        # the same hyperedge at two times
-        edges.append(edges[0])
-        times.append(times[0] % tmax + 1 if tmax > 1 else times[0] + 1)
-    return {"kind": "temporal", "labels": labels, "edges": edges, "times": times}
+    via = pick_via(rng)
+    if via is None:
+        edges = gen_edges(rng, labels, 2, 9)
+        times = [rng.randint(1, tmax) for _ in edges]
+        if rng.random() < 0.5 and len(edges) >= 2:
+            # the same hyperedge at two times
+            edges.append(edges[0])
+            times.append(times[0] % tmax + 1 if tmax > 1 else times[0] + 1)
+        return {"kind": "temporal", "labels": labels, "edges": edges, "times": times}
+    for _ in range(50):
+        pre = walk_temporal(rng, labels, [], rng.randint(4, 13), tmax)
+        recs = sim_temporal(pre)
+        if len(recs) >= 2 and any(o[0] == "rm" for o in pre):
+            break
+    case = {"kind": "temporal", "labels": labels, "via": via, "pre": pre}
+    if via != "history":
+        for _ in range(50):
+            post = walk_temporal(rng, labels, pre, rng.randint(1, 3), tmax + (1 if rng.random() < 0.3 else 0))[len(pre):]
+            after = sim_temporal(pre + post)
+            if set(after) != set(recs) and after:
+                break
+        case["post"] = post
+    return case
 
 
-def gen_uniform(rng):
-    k = rng.choice([3, 4])
+# --- connected uniform hypergraphs on 0..n-1
+
+def connected(n, edges):
+    adj = {i: set() for i in range(n)}
+    for e in edges:
+        for a in e:
+            adj[a].update(e)
+    seen, todo = {0}, [0]
+    while todo:
+        for w in adj[todo.pop()]:
+            if w not in seen:
+                seen.add(w)
+                todo.append(w)
+    return len(seen) == n
+
+
+def fam_random(rng, k):
     n = rng.randint(k + 1, 9)
     order = list(range(n))
     rng.shuffle(order)
-    edges, seen = [], set(order[:k])
-    edges.append(tuple(order[:k]))
+    edges, seen = [tuple(order[:k])], set(order[:k])
     for x in order[k:]:
-        others = rng.sample(sorted(seen), k - 1)
-        edges.append(tuple(others + [x]))
+        edges.append(tuple(rng.sample(sorted(seen), k - 1) + [x]))
         seen.add(x)
     for _ in range(rng.randint(0, 4)):
         edges.append(tuple(rng.sample(range(n), k)))
-    es = []
+    return edges
+
+
+def fam_chain(rng, k, big):
+    ov = rng.choice([1, 1, 2])
+    hi = {(3, 1): 27, (4, 1): 21, (3, 2): 45, (4, 2): 30}[(k, ov)]
+    L = rng.randint(3, hi if big else max(4, hi // 2))
+    st = k - ov
+    return [tuple(range(i * st, i * st + k)) for i in range(L)]
+
+
+def fam_cycle(rng, k, big):
+    L = rng.randint(4, (30 if k == 3 else 21) if big else 14)
+    n = (k - 1) * L
+    return [tuple(((k - 1) * i + j) % n for j in range(k)) for i in range(L)]
+
+
+def fam_blocks(rng, k, big):
+    """two complete blocks with a few hyperedges knocked out, joined by a bridge path; or a block with a tail"""
+    b1 = rng.randint(k + 1, 7)
+    A = list(itertools.combinations(range(b1), k))
+    for _ in range(rng.randint(0, 3)):
+        if len(A) > 2:
+            A.pop(rng.randrange(len(A)))
+    off = b1 - 1
+    path = [tuple(range(off + i * (k - 1), off + i * (k - 1) + k)) for i in range(rng.randint(1, 9 if big and rng.random() < 0.5 else 2))]
+    last = path[-1][-1]
+    if rng.random() < 0.3:
+        return A + path
+    b2 = max(k + 1, b1 + rng.choice([-1, 0, 0, 0, 1]))
+    B = [tuple(v + last for v in e) for e in itertools.combinations(range(b2), k)]
+    for _ in range(rng.randint(0, 3)):
+        if len(B) > 2:
+            B.pop(rng.randrange(len(B)))
+    return A + path + B
+
+
+def fam_hub(rng, k, big):
+    leaves = rng.randint(3, 12)
+    edges, nxt = [], 1
+    for _ in range(leaves):
+        edges.append((0,) + tuple(range(nxt, nxt + k - 1)))
+        nxt += k - 1
+    for _ in range(rng.randint(0, 3)):
+        edges.append(tuple(rng.sample(range(nxt), k)))
+    return edges
+
+
+def gen_uniform(rng, big=True):
+    k = rng.choice([3, 4])
+    for _ in range(100):
+        r = rng.random()
+        fam = "random" if r < 0.4 else "chain" if r < 0.6 else "cycle" if r < 0.72 else "blocks" if r < 0.92 else "hub"
+        raw = {"random": lambda: fam_random(rng, k), "chain": lambda: fam_chain(rng, k, big), "cycle": lambda: fam_cycle(rng, k, big),
+               "blocks": lambda: fam_blocks(rng, k, big), "hub": lambda: fam_hub(rng, k, big)}[fam]()
+        used = sorted({v for e in raw for v in e})
+        n = len(used)
+        perm = list(range(n))
+        rng.shuffle(perm)
+        ren = {v: perm[i] for i, v in enumerate(used)}
+        es = []
+        for e in raw:
+            e = [ren[v] for v in e]
+            rng.shuffle(e)
+            if len(set(e)) == k and tuple(sorted(e)) not in [tuple(sorted(f)) for f in es]:
+                es.append(tuple(e))
+        if n > k and connected(n, es):
+            break
+    case = {"kind": "uniform", "family": fam, "n": n, "k": k, "edges": es, "seed": rng.randint(0, 10 ** 6)}
+    via = pick_via(rng)
+    if via is None:
+        return case
+
+    def new_edge(present):
+        for _ in range(40):
+            e = tuple(rng.sample(range(n), k))
+            if tuple(sorted(e)) not in present:
+                return e
+        return None
+    # history: the hyperedges in another order, temporary hyperedges removed again, removal + re-insertion
+    pre = [["add_edge", list(e)] for e in es]
+    rng.shuffle(pre)
+    for _ in range(rng.randint(1, 3)):
+        present = {tuple(sorted(o[1])) for o in pre}
+        if rng.random() < 0.6:
+            t = new_edge(present)
+            if t is not None:
+                i = rng.randint(0, len(pre))
+                j = rng.randint(i, len(pre))
+                pre.insert(i, ["add_edge", list(t)])
+                pre.insert(j + 1, ["rm_edge", list(t)])
+        else:
+            i = rng.randrange(len(pre))
+            if pre[i][0] == "add_edge" and sum(1 for o in pre if sorted(o[1]) == sorted(pre[i][1])) == 1:
+                e = pre[i][1]
+                j = rng.randint(i + 1, len(pre))
+                pre.insert(j, ["rm_edge", list(e)])
+                pre.insert(rng.randint(j + 1, len(pre)), ["add_edge", list(e)])
+    case.update({"via": via, "pre": pre})
+    if via != "history":
+        cur = [tuple(sorted(e)) for e in es]
+        post = []
+        t = new_edge(set(cur))
+        if t is not None:
+            post.append(["add_edge", list(t)])
+        if rng.random() < 0.6:
+            # a swap: with the addition above the counts stay equal when one redundant hyperedge goes
+            cands = [e for e in cur if connected(n, [f for f in cur if f != e] + ([tuple(sorted(t))] if t is not None else []))]
+            if cands:
+                post.insert(0, ["rm_edge", list(rng.choice(cands))])
+        if not post:
+            case["via"] = "history"
+        else:
+            case["post"] = post
+    return case
+
+
+# --- dense / large hypergraphs for the sub-hypergraph centrality
+
+def dense_label(mode, i):
+    return 3 * i + 1 if mode == "int" else "v%04d" % i if mode == "str" else i - 7
+
+
+def dense_edges(case):
+    """the hyperedges (over 0..) that the recipe of a dense case stands for"""
+    sel = random.Random(case["sel"])
+    core = case["core"]
+    edges = [e for k in case["sizes"] for e in itertools.combinations(range(core), k) if sel.random() < case["keep"]]
+    edges += [tuple(range(lo, hi)) for lo, hi in case.get("bigs", [])]
+    edges += [tuple(e) for e in case.get("extra", [])]
+    out, seen = [], set()
     for e in edges:
-        e = list(e)
-        rng.shuffle(e)
-        if tuple(sorted(e)) not in [tuple(sorted(f)) for f in es]:
-            es.append(tuple(e))
-    return {"kind": "uniform", "n": n, "k": k, "edges": es, "seed": rng.randint(0, 10 ** 6)}
+        if e not in seen and len(e) >= 1:
+            seen.add(e)
+            out.append(e)
+    return out
+
+
+def gen_dense(rng, cap):
+    for _ in range(20):
+        case = gen_dense_once(rng, cap)
+        if len(dense_edges(case)) >= 2:
+            break
+    return case
+
+
+def gen_dense_once(rng, cap):
+    lab = rng.choice(["int", "str", "neg"])
+    r = rng.random()
+    if r < 0.7:
+        core = rng.randint(6, 14)
+        sizes = sorted(rng.sample([2, 3, 4, 5, 6], rng.randint(1, 3)))
+        total = sum(math.comb(core, k) for k in sizes)
+        keep = min(rng.choice([1.0, 0.7, 0.3, 0.1]), cap / total)
+        case = {"kind": "dense", "core": core, "sizes": sizes, "keep": keep, "bigs": []}
+        top = core
+    else:
+        m = rng.randint(20, 60 if cap < 1000 else 110) if rng.random() < 0.5 else rng.randint(120, 170)
+        nb = rng.randint(1, 6 if m >= 120 else 8)
+        bigs = []
+        for _ in range(nb):
+            b = [rng.randint(0, 4), m + rng.randint(0, 6)]
+            if b not in bigs:
+                bigs.append(b)
+        case = {"kind": "dense", "core": 0, "sizes": [], "keep": 1.0, "bigs": bigs}
+        top = max(b[1] for b in bigs)
+    extra, nxt = [], top
+    for _ in range(rng.randint(0, 3)):
+        # pendant hyperedges, at most two steps away from the core
+        a = rng.randrange(top) if not extra or rng.random() < 0.6 else extra[-1][-1]
+        if a >= top and any(e[0] >= top for e in extra if e[-1] == a):
+            a = rng.randrange(top)
+        e = (a,) + tuple(range(nxt, nxt + rng.randint(1, 2)))
+        nxt = e[-1] + 1
+        extra.append(e)
+    if rng.random() < 0.35:
+        extra.append(tuple(range(nxt, nxt + rng.randint(2, 3))))
+        nxt = extra[-1][-1] + 1
+    iso = [nxt + i for i in range(rng.randint(0, 2))]
+    case.update({"sel": rng.randint(0, 10 ** 6), "extra": [list(e) for e in extra], "iso": iso, "lab": lab})
+    via = pick_via(rng)
+    if via is not None:
+        base = dense_edges(case)
+        used = sorted({v for e in base for v in e})
+        if len(base) >= 2 and len(used) >= 4:
+            def small(present):
+                for _ in range(30):
+                    e = tuple(sorted(rng.sample(used, rng.randint(2, min(4, len(used))))))
+                    if e not in present:
+                        return e
+                return None
+            temp = [e for e in (small(set(base)) for _ in range(rng.randint(1, 3))) if e is not None]
+            readd = [list(base[rng.randrange(len(base))]) for _ in range(rng.randint(0, 2))]
+            case.update({"via": via, "temp": [list(e) for e in dict.fromkeys(temp)], "readd": [list(e) for e in dict.fromkeys(map(tuple, readd))]})
+            if via != "history":
+                add = [e for e in (small(set(base)) for _ in range(rng.randint(1, 3))) if e is not None]
+                rm = [list(base[rng.randrange(len(base))])] if rng.random() < 0.6 else []
+                if rng.random() < 0.3:
+                    # a heavy mutation: the whole core once more with one more size
+                    big_add = [e for e in itertools.combinations(used[:min(len(used), 10)], 3) if e not in set(base)][:150]
+                    add += big_add
+                case["post"] = [["rm_edge", e] for e in rm] + [["add_edge", list(e)] for e in dict.fromkeys(add) if list(e) not in rm]
+                if not case["post"]:
+                    case["via"] = "history"
+    return case
 
 
 # ------------------------------------------------------------------------------------------
@@ -290,21 +945,6 @@ class Values:
 
     def nontrivial(self):
         return len(self.vals) >= 2
-
-
-def build_static(case, relabel=None):
-    from hypergraphx import Hypergraph
-    f = (lambda x: x) if relabel is None else (lambda x: relabel[x])
-    h = Hypergraph()
-    if case.get("iso_first"):
-        for x in case["isolated"]:
-            h.add_node(f(x))
-    for e in case["edges"]:
-        h.add_edge(tuple(f(x) for x in e))
-    if not case.get("iso_first"):
-        for x in case["isolated"]:
-            h.add_node(f(x))
-    return h
 
 
 def check_dict(ctx, case, name, got, want_keys, ref_exact, ref_nx, vals, what_keys):
@@ -357,31 +997,119 @@ def compare_items(ctx, case, line, ans, impl, keyf, exact):
             return
 
 
+
 # ------------------------------------------------------------------------------------------
 # stream 1: static hypergraphs
 
+def static_fresh_ops(case):
+    iso = [["add_node", x] for x in case.get("isolated", [])]
+    adds = [["add_edge", list(e)] for e in case.get("edges", [])]
+    return iso + adds if case.get("iso_first") else adds + iso
+
+
+def static_instances(case, f=None):
+    from hypergraphx import Hypergraph
+    return instances(case, Hypergraph, apply_static, sim_static, static_fresh_ops(case), f)
+
+
+def listing(ctx, case, tag, h, exp, f=None):
+    """get_nodes() / get_edges() of the object; they must list exactly the content the history leaves (each item once)"""
+    f = f or (lambda x: x)
+    r = guard(lambda: (list(h.get_nodes()), [tuple(sorted(e)) for e in h.get_edges()]))
+    if r[0] != "ok":
+        ctx.violation(case, f"get_nodes() / get_edges() of the object ({tag}) raised {r[1]}")
+        return None
+    nodes, edges = r[1]
+    en, ee = [f(x) for x in exp[0]], [tuple(sorted(f(x) for x in e)) for e in exp[1]]
+    if len(set(nodes)) != len(nodes) or set(nodes) != set(en) or len(set(edges)) != len(edges) or set(edges) != set(ee):
+        ctx.violation(case, f"the object ({tag}) lists nodes {nodes!r} / hyperedges {edges!r}; its history leaves {en!r} / {ee!r}")
+        return None
+    return nodes, edges
+
+
 def check_static(ctx, drv, case):
+    import numpy as np
+    from hypergraphx.measures import s_centralities as sc
+    from hypergraphx.measures.sub_hypergraph_centrality import subhypergraph_centrality
+    vals = Values()
+    rank = {x: i for i, x in enumerate(sorted(set(case["labels"])))}
+    keys, first_impl = [], None
+    for tag, h, exp in each_instance(ctx, case, static_instances(case)):
+        icase = {**case, "instance": tag} if case.get("via") else case
+        got = listing(ctx, icase, tag, h, exp)
+        if got is None:
+            continue
+        nodes, edges = got
+        keys.append((tag, [rank[x] for x in nodes], [sorted(rank[x] for x in e) for e in edges]))
+        # the second object of a case is asked in the opposite order of s: the last question before a mutation and the first one
+        # after it are then the SAME call (a result remembered per argument would be stale)
+        impl = check_static_obj(ctx, drv, icase, h, nodes, edges, rank, vals, (1, 2, 3) if not keys[:-1] else (3, 2, 1))
+        if first_impl is None:
+            first_impl = (impl, nodes)
+        ctx.count("static_instance_" + tag.replace(" ", "_"))
+
+    # --- relabelling: injective, not monotone, into the other kind of labels; the relabelled object is reached the same way
+    labels = sorted(set(case["labels"]))
+    perm = list(range(len(labels)))
+    ctx.rng.shuffle(perm)
+    if "relabel" in case:
+        relabel = {a: b for a, b in case["relabel"]}
+    elif isinstance(labels[0], str):
+        relabel = {x: 100 + 3 * perm[i] for i, x in enumerate(labels)}
+    else:
+        relabel = {x: "NE" + chr(65 + perm[i]) for i, x in enumerate(labels)}
+    rcase = {**case, "relabel": [[x, relabel[x]] for x in labels]}
+    if first_impl is not None:
+        impl, nodes = first_impl
+        g2 = guard(lambda: next(iter(static_instances(case, lambda x: relabel[x]))))
+        if g2[0] != "ok":
+            ctx.violation(rcase, f"building the relabelled hypergraph raised {g2[1]}")
+        else:
+            h2 = g2[1][1]
+
+            def fe(e):
+                return tuple(sorted(relabel[x] for x in e))
+            todo = [((c, s), fn, (s,), fe) for s in (1, 2, 3) for c, fn in (("btw", sc.s_betweenness), ("clo", sc.s_closeness))]
+            todo += [((c, "n"), fn, (), lambda x: relabel[x]) for c, fn in (("btw", sc.s_betweenness_nodes), ("clo", sc.s_closeness_nodes))]
+            for k, fn, args, fk in todo:
+                base = impl.get(k)
+                if base is None:
+                    continue
+                r = guard(fn, h2, *args)
+                if r[0] != "ok" or not isinstance(r[1], dict):
+                    ctx.violation(rcase, f"{fn.__name__} on the relabelled hypergraph raised / returned {r[1]!r}")
+                    continue
+                d2 = r[1]
+                if set(d2) != {fk(x) for x in base} or any(not close(d2[fk(x)], base[x]) for x in base):
+                    ctx.violation(rcase, f"{fn.__name__}{args}: values are not carried along by the relabelling: {base!r} vs {d2!r}")
+            if "subhg" in impl:
+                r = guard(subhypergraph_centrality, h2)
+                if r[0] != "ok":
+                    ctx.violation(rcase, f"subhypergraph_centrality on the relabelled hypergraph raised {r[1]}")
+                else:
+                    v2 = np.asarray(r[1]).reshape(-1)
+                    srt2 = sorted(relabel[x] for x in nodes)
+                    d2 = {y: v2[i] for i, y in enumerate(srt2)} if len(v2) == len(srt2) else {}
+                    if any(not close(d2.get(relabel[x], math.nan), v, 1e-8) for x, v in impl["subhg"].items()):
+                        ctx.violation(rcase, "subhypergraph_centrality: values are not carried along by the relabelling")
+    ctx.case(repr(("static", case.get("via"), keys)), vals.nontrivial(), sample=case)
+    ctx.count("static_str_labels" if isinstance(labels[0], str) else "static_int_labels")
+    ctx.count("static_via_" + str(case.get("via") or "fresh"))
+
+
+def check_static_obj(ctx, drv, case, h, nodes, edges, rank, vals, s_order=(1, 2, 3)):
+    """all static centralities of ONE object whose listing is `nodes`, `edges`; returns what the implementation gave"""
     import networkx as nx
     import numpy as np
     from hypergraphx.representations.projections import line_graph, bipartite_projection
     from hypergraphx.measures import s_centralities as sc
     from hypergraphx.measures.sub_hypergraph_centrality import subhypergraph_centrality
-    vals = Values()
-    got = guard(build_static, case)
-    if got[0] != "ok":
-        ctx.violation(case, f"building the hypergraph raised {got[1]}")
-        return
-    h = got[1]
-    nodes = list(h.get_nodes())
-    edges = [tuple(sorted(e)) for e in h.get_edges()]
-    rank = {x: i for i, x in enumerate(sorted(set(case["labels"])))}
-    key = repr(("static", [rank[x] for x in nodes], [sorted(rank[x] for x in e) for e in edges]))
     lines = ["load " + hgxv.enc_list([rank[x] for x in nodes]) + " " + hgxv.enc_lists([[rank[x] for x in e] for e in edges])]
     checks = [lambda a: a == "ok" or f"load answered {a!r}"]
     impl = {}
 
     # --- projections (correspondence) and s-centralities of hyperedges
-    for s in (1, 2, 3):
+    for s in s_order:
         adj = own_line(edges, s)
         g_own = nx_graph(adj)
         for name, fn, exact_fn, nxf, cname in (("s_betweenness", sc.s_betweenness, exact_betweenness, nx.betweenness_centrality, "btw"),
@@ -398,13 +1126,16 @@ def check_static(ctx, drv, case):
             checks.append(("items", (cname, s), lambda k: ekey(rank, k), False))
         lg = guard(line_graph, h, s=s)
         if lg[0] == "ok":
-            g, tab = lg[1]
-            want = (hgxv.enc_lists(sorted(sorted(e) for e in g.edges())) + " "
-                    + hgxv.enc_lists([[rank[x] for x in tab[i]] for i in range(len(tab))]))
-            lines.append(f"line {s}")
-            checks.append(("line", want))
-            if sorted(g.nodes) != list(range(len(edges))):
-                ctx.violation({**case, "s": s}, f"line_graph vertices {sorted(g.nodes)} are not one per hyperedge")
+            try:
+                g, tab = lg[1]
+                want = (hgxv.enc_lists(sorted(sorted(e) for e in g.edges())) + " "
+                        + hgxv.enc_lists([[rank[x] for x in tab[i]] for i in range(len(tab))]))
+                lines.append(f"line {s}")
+                checks.append(("line", want))
+                if sorted(g.nodes) != list(range(len(edges))):
+                    ctx.violation({**case, "s": s}, f"line_graph vertices {sorted(g.nodes)} are not one per hyperedge")
+            except Exception as e:  # noqa: BLE001
+                ctx.disagree({**case, "s": s}, f"line_graph(h, s={s}) returned something that is not (graph, id table 0..m-1): {type(e).__name__}: {e}")
         with StubNx():
             for name, fn in (("s_betweenness", sc.s_betweenness), ("s_closeness", sc.s_closeness)):
                 r = guard(fn, h, s)
@@ -432,84 +1163,37 @@ def check_static(ctx, drv, case):
             checks.append(("items", ("stub" + name, "n"), lambda k: "n" + str(rank[k]), True))
     bp = guard(bipartite_projection, h)
     if bp[0] == "ok":
-        g, tab = bp[1]
+        try:
+            g, tab = bp[1]
 
-        def obj(o):
-            return "e" + ekey(rank, o) if isinstance(o, tuple) else "n" + str(rank[o])
-        want = (",".join(str(v) for v in g.nodes) or "-") + " " + (",".join(sorted("~".join(sorted(map(str, e))) for e in g.edges())) or "-") \
-            + " " + (",".join(sorted(f"{k}={obj(o)}" for k, o in tab.items())) or "-")
-        lines.append("bip")
-        checks.append(("bip", want))
+            def obj(o):
+                return "e" + ekey(rank, o) if isinstance(o, tuple) else "n" + str(rank[o])
+            want = (",".join(str(v) for v in g.nodes) or "-") + " " + (",".join(sorted("~".join(sorted(map(str, e))) for e in g.edges())) or "-") \
+                + " " + (",".join(sorted(f"{k}={obj(o)}" for k, o in tab.items())) or "-")
+            lines.append("bip")
+            checks.append(("bip", want))
+        except Exception as e:  # noqa: BLE001
+            ctx.disagree(case, f"bipartite_projection returned something that is not (graph, id table over the nodes / hyperedges): {type(e).__name__}: {e}")
 
     # --- sub-hypergraph centrality = log diag expm(A)
     if edges:
         from scipy.linalg import expm
         srt = sorted(nodes)
         idx = {x: i for i, x in enumerate(srt)}
-        A = np.zeros((len(srt), len(srt)))
-        for e in edges:
-            for a in e:
-                for b in e:
-                    if a != b:
-                        A[idx[a], idx[b]] += 1
+        A = adjacency_of(srt, edges)
         want = np.log(np.diag(expm(A)))
         r = guard(subhypergraph_centrality, h)
         if r[0] != "ok":
             ctx.violation(case, f"subhypergraph_centrality raised {r[1]}")
         else:
-            got_v = np.asarray(r[1]).reshape(-1)
+            got_v = np.asarray(r[1], dtype=float).reshape(-1)
             if got_v.shape != want.shape or not np.all(np.abs(got_v - want) <= 1e-8 * np.maximum(1, np.abs(want))):
                 ctx.violation(case, f"subhypergraph_centrality = {got_v.tolist()}, log diag expm(A) = {want.tolist()} (nodes {srt})")
             else:
                 vals.add(got_v.tolist())
                 impl["subhg"] = {x: got_v[idx[x]] for x in srt}
-
-    # --- relabelling: injective, not monotone, into the other kind of labels
-    labels = sorted(set(case["labels"]))
-    perm = list(range(len(labels)))
-    ctx.rng.shuffle(perm)
-    if "relabel" in case:
-        relabel = {a: b for a, b in case["relabel"]}
-    elif isinstance(labels[0], str):
-        relabel = {x: 100 + 3 * perm[i] for i, x in enumerate(labels)}
-    else:
-        relabel = {x: "NE" + chr(65 + perm[i]) for i, x in enumerate(labels)}
-    rcase = {**case, "relabel": [[x, relabel[x]] for x in labels]}
-    g2 = guard(build_static, case, relabel)
-    if g2[0] != "ok":
-        ctx.violation(rcase, f"building the relabelled hypergraph raised {g2[1]}")
-    else:
-        h2 = g2[1]
-
-        def fe(e):
-            return tuple(sorted(relabel[x] for x in e))
-        todo = [((c, s), fn, (s,), fe) for s in (1, 2, 3) for c, fn in (("btw", sc.s_betweenness), ("clo", sc.s_closeness))]
-        todo += [((c, "n"), fn, (), lambda x: relabel[x]) for c, fn in (("btw", sc.s_betweenness_nodes), ("clo", sc.s_closeness_nodes))]
-        for k, fn, args, fk in todo:
-            base = impl.get(k)
-            if base is None:
-                continue
-            r = guard(fn, h2, *args)
-            if r[0] != "ok" or not isinstance(r[1], dict):
-                ctx.violation(rcase, f"{fn.__name__} on the relabelled hypergraph raised / returned {r[1]!r}")
-                continue
-            d2 = r[1]
-            if set(d2) != {fk(x) for x in base} or any(not close(d2[fk(x)], base[x]) for x in base):
-                ctx.violation(rcase, f"{fn.__name__}{args}: values are not carried along by the relabelling: {base!r} vs {d2!r}")
-        if "subhg" in impl:
-            r = guard(subhypergraph_centrality, h2)
-            if r[0] != "ok":
-                ctx.violation(rcase, f"subhypergraph_centrality on the relabelled hypergraph raised {r[1]}")
-            else:
-                v2 = np.asarray(r[1]).reshape(-1)
-                srt2 = sorted(relabel[x] for x in nodes)
-                d2 = {y: v2[i] for i, y in enumerate(srt2)} if len(v2) == len(srt2) else {}
-                if any(not close(d2.get(relabel[x], math.nan), v, 1e-8) for x, v in impl["subhg"].items()):
-                    ctx.violation(rcase, "subhypergraph_centrality: values are not carried along by the relabelling")
-
-    ctx.case(key, vals.nontrivial(), sample=case)
-    ctx.count("static_str_labels" if isinstance(labels[0], str) else "static_int_labels")
     run_model(ctx, drv, case, lines, checks, impl)
+    return impl
 
 
 def run_model(ctx, drv, case, lines, checks, impl):
@@ -536,27 +1220,77 @@ def run_model(ctx, drv, case, lines, checks, impl):
                 ctx.disagree({**case, "line": ln}, f"model answers {a!r} to {ln!r}, implementation gives {ck[1]!r}")
 
 
+
 # ------------------------------------------------------------------------------------------
 # stream 2: temporal hypergraphs
 
-def check_temporal(ctx, drv, case):
+def temporal_instances(case, f=None):
     from hypergraphx import TemporalHypergraph
+    fresh = [["add", list(e), t] for e, t in zip(case.get("edges", []), case.get("times", []))]
+    return instances(case, TemporalHypergraph, apply_temporal, sim_temporal, fresh, f)
+
+
+def check_temporal(ctx, drv, case):
     from hypergraphx.measures import s_centralities as sc
     vals = Values()
-
-    def build():
-        t = TemporalHypergraph()
-        for e, tm in zip(case["edges"], case["times"]):
-            t.add_edge(tuple(e), tm)
-        return t
-    got = guard(build)
-    if got[0] != "ok":
-        ctx.violation(case, f"building the temporal hypergraph raised {got[1]}")
-        return
-    T = got[1]
-    recs = [(t, tuple(sorted(e))) for t, e in T.get_edges()]
     rank = {x: i for i, x in enumerate(sorted(set(case["labels"])))}
-    key = repr(("temporal", [(t, sorted(rank[x] for x in e)) for t, e in recs]))
+    keys, first_impl = [], None
+    for tag, T, exp in each_instance(ctx, case, temporal_instances(case)):
+        icase = {**case, "instance": tag} if case.get("via") else case
+        r = guard(lambda: [(t, tuple(sorted(e))) for t, e in T.get_edges()])
+        if r[0] != "ok":
+            ctx.violation(icase, f"get_edges() of the temporal hypergraph ({tag}) raised {r[1]}")
+            continue
+        recs = r[1]
+        if len(set(recs)) != len(recs) or set(recs) != set(exp):
+            ctx.violation(icase, f"the temporal hypergraph ({tag}) lists {recs!r}; its history leaves {exp!r}")
+            continue
+        keys.append((tag, [(t, sorted(rank[x] for x in e)) for t, e in recs]))
+        impl = check_temporal_obj(ctx, drv, icase, T, recs, rank, vals, (1, 2, 3) if not keys[:-1] else (3, 2, 1))
+        if first_impl is None:
+            first_impl = impl
+        ctx.count("temporal_instance_" + tag.replace(" ", "_"))
+    # relabelling (injective, not monotone, into the other kind of labels)
+    labels = sorted(set(case["labels"]))
+    perm = list(range(len(labels)))
+    ctx.rng.shuffle(perm)
+    if "relabel" in case:
+        relabel = {a: b for a, b in case["relabel"]}
+    elif isinstance(labels[0], str):
+        relabel = {x: 100 + 3 * perm[i] for i, x in enumerate(labels)}
+    else:
+        relabel = {x: "EN" + chr(65 + perm[i]) for i, x in enumerate(labels)}
+    rcase = {**case, "relabel": [[x, relabel[x]] for x in labels]}
+    if first_impl is not None:
+        impl = first_impl
+        g2 = guard(lambda: next(iter(temporal_instances(case, lambda x: relabel[x]))))
+        if g2[0] != "ok":
+            ctx.violation(rcase, f"building the relabelled temporal hypergraph raised {g2[1]}")
+        else:
+            T2 = g2[1][1]
+
+            def fe(e):
+                return tuple(sorted(relabel[x] for x in e))
+            todo = [((c, s), fn, (s,), fe) for s in (1, 2) for c, fn in (("btw", sc.s_betweenness_averaged), ("clo", sc.s_closeness_averaged))]
+            todo += [((c, "n"), fn, (), lambda x: relabel[x]) for c, fn in (("btw", sc.s_betweenness_nodes_averaged), ("clo", sc.s_closenness_nodes_averaged))]
+            for k, fn, args, fk in todo:
+                base = impl.get(k)
+                if base is None:
+                    continue
+                r = guard(fn, T2, *args)
+                if r[0] != "ok" or not isinstance(r[1], dict):
+                    ctx.violation(rcase, f"{fn.__name__} on the relabelled temporal hypergraph raised / returned {r[1]!r}")
+                    continue
+                d2 = r[1]
+                if set(d2) != {fk(x) for x in base} or any(not close(d2[fk(x)], base[x]) for x in base):
+                    ctx.violation(rcase, f"{fn.__name__}{args}: values are not carried along by the relabelling: {base!r} vs {d2!r}")
+    ctx.case(repr(("temporal", case.get("via"), keys)), vals.nontrivial(), sample=case)
+    ctx.count("temporal_str_labels" if isinstance(case["labels"][0], str) else "temporal_int_labels")
+    ctx.count("temporal_via_" + str(case.get("via") or "fresh"))
+
+
+def check_temporal_obj(ctx, drv, case, T, recs, rank, vals, s_order=(1, 2, 3)):
+    from hypergraphx.measures import s_centralities as sc
     lines = ["tload " + hgxv.enc_list([t for t, _ in recs]) + " " + hgxv.enc_lists([[rank[x] for x in e] for _, e in recs])]
     checks = [lambda a: a == "ok" or f"tload answered {a!r}"]
     impl = {}
@@ -569,12 +1303,15 @@ def check_temporal(ctx, drv, case):
     nT = len(tms)
     sub = guard(T.subhypergraph)
     if sub[0] == "ok":
-        d = sub[1]
-        want = (hgxv.enc_list(list(d.keys())) + " " + hgxv.enc_lists([[rank[x] for x in hh.get_nodes()] for hh in d.values()]) + " "
-                + "|".join(";".join(",".join(str(rank[x]) for x in e) for e in hh.get_edges()) for hh in d.values()))
-        lines.append("snaps")
-        checks.append(("plain", want))
-    for s in (1, 2, 3):
+        try:
+            d = sub[1]
+            want = (hgxv.enc_list(list(d.keys())) + " " + hgxv.enc_lists([[rank[x] for x in hh.get_nodes()] for hh in d.values()]) + " "
+                    + "|".join(";".join(",".join(str(rank[x]) for x in e) for e in hh.get_edges()) for hh in d.values()))
+            lines.append("snaps")
+            checks.append(("plain", want))
+        except Exception as e:  # noqa: BLE001
+            ctx.disagree(case, f"subhypergraph() returned something that is not a dict time -> Hypergraph over the labels: {type(e).__name__}: {e}")
+    for s in s_order:
         for name, fn, exact_fn, cname in (("s_betweenness_averaged", sc.s_betweenness_averaged, exact_betweenness, "btw"),
                                           ("s_closeness_averaged", sc.s_closeness_averaged, exact_closeness, "clo")):
             tot = {e: Fraction(0) for e in all_edges}
@@ -582,7 +1319,7 @@ def check_temporal(ctx, drv, case):
                 ref = exact_fn(own_line(snap_edges[t], s))
                 for i, e in enumerate(snap_edges[t]):
                     tot[e] += ref[i]
-            ref = {e: v / nT for e, v in tot.items()}
+            ref = {e: v / nT for e, v in tot.items()} if nT else {}
             dd = check_dict(ctx, {**case, "s": s}, f"{name}(T, s={s})", guard(fn, T, s), all_edges, ref, None, vals, "hyperedge")
             impl[(cname, s)] = dd
             lines.append(f"tse {cname} {s}")
@@ -600,7 +1337,7 @@ def check_temporal(ctx, drv, case):
             ref = exact_fn(own_bip(snap_nodes[t], snap_edges[t]))
             for x in snap_nodes[t]:
                 tot[x] += ref[("n", x)]
-        ref = {x: v / nT for x, v in tot.items()}
+        ref = {x: v / nT for x, v in tot.items()} if nT else {}
         dd = check_dict(ctx, case, f"{name}(T)", guard(fn, T), all_nodes, ref, None, vals, "node")
         impl[(cname, "n")] = dd
         lines.append(f"tsn {cname}")
@@ -611,50 +1348,18 @@ def check_temporal(ctx, drv, case):
             impl[("stub" + name, "n")] = r[1] if r[0] == "ok" and isinstance(r[1], dict) else None
             lines.append("tsn stub")
             checks.append(("items", ("stub" + name, "n"), lambda k: "n" + str(rank[k]), True))
-    # relabelling (injective, not monotone, into the other kind of labels)
-    labels = sorted(set(case["labels"]))
-    perm = list(range(len(labels)))
-    ctx.rng.shuffle(perm)
-    if "relabel" in case:
-        relabel = {a: b for a, b in case["relabel"]}
-    elif isinstance(labels[0], str):
-        relabel = {x: 100 + 3 * perm[i] for i, x in enumerate(labels)}
-    else:
-        relabel = {x: "EN" + chr(65 + perm[i]) for i, x in enumerate(labels)}
-    rcase = {**case, "relabel": [[x, relabel[x]] for x in labels]}
-
-    def build2():
-        t = TemporalHypergraph()
-        for e, tm in zip(case["edges"], case["times"]):
-            t.add_edge(tuple(relabel[x] for x in e), tm)
-        return t
-    g2 = guard(build2)
-    if g2[0] != "ok":
-        ctx.violation(rcase, f"building the relabelled temporal hypergraph raised {g2[1]}")
-    else:
-        def fe(e):
-            return tuple(sorted(relabel[x] for x in e))
-        todo = [((c, s), fn, (s,), fe) for s in (1, 2) for c, fn in (("btw", sc.s_betweenness_averaged), ("clo", sc.s_closeness_averaged))]
-        todo += [((c, "n"), fn, (), lambda x: relabel[x]) for c, fn in (("btw", sc.s_betweenness_nodes_averaged), ("clo", sc.s_closenness_nodes_averaged))]
-        for k, fn, args, fk in todo:
-            base = impl.get(k)
-            if base is None:
-                continue
-            r = guard(fn, g2[1], *args)
-            if r[0] != "ok" or not isinstance(r[1], dict):
-                ctx.violation(rcase, f"{fn.__name__} on the relabelled temporal hypergraph raised / returned {r[1]!r}")
-                continue
-            d2 = r[1]
-            if set(d2) != {fk(x) for x in base} or any(not close(d2[fk(x)], base[x]) for x in base):
-                ctx.violation(rcase, f"{fn.__name__}{args}: values are not carried along by the relabelling: {base!r} vs {d2!r}")
-    ctx.case(key, vals.nontrivial(), sample=case)
-    ctx.count("temporal_str_labels" if isinstance(case["labels"][0], str) else "temporal_int_labels")
     ctx.count(f"temporal_snapshots_{nT}")
     run_model(ctx, drv, case, lines, checks, impl)
+    return impl
+
 
 
 # ------------------------------------------------------------------------------------------
 # stream 3: CEC / HEC on connected uniform hypergraphs
+
+CEC_TOL, CEC_ITER = 1e-7, 1000     # documented defaults of CEC_centrality / power_method
+HEC_TOL, HEC_ITER = 1e-6, 100      # documented defaults of HEC_centrality
+
 
 class FixedStart:
     """np.random.rand / np.random.uniform return the given vector (the code's random start)"""
@@ -692,76 +1397,188 @@ def as_vec(ctx, case, name, r, n):
     return v
 
 
+def uniform_instances(case, f=None):
+    from hypergraphx import Hypergraph
+    f = f or (lambda x: x)
+    edges = [tuple(e) for e in case["edges"]]
+    if not case.get("via"):
+        # the constructor (the other modes go through add_edge / remove_edge)
+        def gen():
+            yield "fresh", Hypergraph([tuple(f(x) for x in e) for e in edges]), sim_static([["add_edge", list(e)] for e in edges])
+        return gen()
+    return instances(case, Hypergraph, apply_static, sim_static, [], f)
+
+
+class Spectrum:
+    def __init__(self, n, k, E):
+        import numpy as np
+        self.n, self.k, self.m = n, k, k - 1
+        self.E = np.array([list(e) for e in E], dtype=int).reshape(len(E), k)
+        self.W = np.zeros((n, n))
+        for e in E:
+            for a in e:
+                for b in e:
+                    if a != b:
+                        self.W[a, b] += 1
+        ev = np.linalg.eigvalsh(self.W)
+        self.lam_max = float(ev[-1])
+        self.rho = float(max(abs(ev[0]), abs(ev[-2])) / ev[-1]) if n >= 2 else 0.0
+
+
+def table_line(cmd, max_iter, tol, table):
+    return f"{cmd} {max_iter} {hgxv.enc_num(Fraction(tol))} " + hgxv.enc_list([Fraction(v) for v in table])
+
+
+def borderline(table, tol):
+    return any(abs(v - tol) <= 1e-9 * tol for v in table)
+
+
+def judge_cec(ctx, drv, case, sp, c, x0, passes, vals):
+    """one CEC run with DEFAULT arguments from the start `x0` (None: not observed). Returns True when the documented
+    iteration from x0 meets its stopping test within the documented budget (then the eigen-equation was demanded)"""
+    import numpy as np
+    vals.add(c.tolist())
+    if not (np.all(c > 0) and abs(np.linalg.norm(c) - 1) <= 1e-9):
+        ctx.violation(case, f"CEC is not a positive unit vector: {c.tolist()}")
+        return False
+    lam = float(c @ sp.W @ c)
+    res = float(np.linalg.norm(sp.W @ c - lam * c))
+    if x0 is None or len(x0) != sp.n:
+        ctx.count("cec_start_not_observed")
+        if 1 - sp.rho >= 0.05 and (res > 1e-5 * max(1.0, lam) or abs(lam - sp.lam_max) > 1e-5 * max(1.0, sp.lam_max)):
+            ctx.violation(case, f"CEC: |W c - lambda c| = {res:.3g}, lambda = {lam!r}, lambda_max = {sp.lam_max!r}")
+        return False
+    _, k_own, table = own_power(sp.W, x0, CEC_ITER, CEC_TOL)
+    conv = bool(table) and table[-1] <= CEC_TOL
+    ctx.count("cec_passes_%s" % ("le_100" if k_own <= 100 else "101_300" if k_own <= 300 else "301_999" if k_own < 1000 else "1000"))
+    if drv is not None and passes is not None and passes > 0 and not borderline(table, CEC_TOL):
+        a = drv.batch([table_line("pmcount", CEC_ITER, CEC_TOL, table)])[0]
+        if a != str(passes):
+            ctx.disagree(case, f"power_method made {passes} passes; the model's loop `while res > tol and k < max_iter` (tol=1e-7, max_iter=1000) "
+                               f"on the residuals of the documented iteration from the same start makes {a}")
+    if not conv:
+        ctx.count("cec_budget_exhausted")
+        return False
+    # C20_cec_returned: W x' - c x' = W (x' - x) for the returned x' = W x / c, |x' - x| <= tol at the stop, |W| = lambda_max;
+    # the Rayleigh quotient minimises the residual
+    bound = sp.lam_max * CEC_TOL * (1 + 1e-3) + 1e-12 * sp.lam_max
+    if res > bound:
+        ctx.violation(case, f"CEC (default arguments): |W c - lambda c| = {res:.4g} exceeds lambda_max * tol = {sp.lam_max * CEC_TOL:.4g}, the bound the "
+                            f"documented tol=1e-7 guarantees; the documented iteration from the same start stops after {k_own} <= {CEC_ITER} passes "
+                            f"(relative residual {res / sp.lam_max:.3g})")
+    elif 1 - sp.rho >= 1e-3 and abs(lam - sp.lam_max) > 1e-5 * max(1.0, sp.lam_max):
+        ctx.violation(case, f"CEC: lambda = {lam!r} is not lambda_max = {sp.lam_max!r}")
+    return True
+
+
+def judge_hec(ctx, drv, case, sp, x, x0, passes, vals):
+    import numpy as np
+    vals.add(x.tolist())
+    if not (np.all(x > 0) and abs(np.sum(x) - 1) <= 1e-9):
+        ctx.violation(case, f"HEC is not a positive vector of sum 1: {x.tolist()}")
+        return False
+    m = sp.m
+    y = hec_apply(sp.E, sp.n, x)
+    r = y ** (1.0 / m)
+    cst = float(np.sum(r) ** m)                      # the constant of C20_hec_fixed_point
+    xn = r / np.sum(r)
+    dist = float(np.linalg.norm(x - xn))
+    resid = float(np.linalg.norm(y - cst * x ** m))
+    if x0 is None or len(x0) != sp.n:
+        ctx.count("hec_start_not_observed")
+        if sp.n <= 9 and float(np.max(np.abs(y - cst * x ** m))) > 1e-5:
+            ctx.violation(case, f"HEC: max_i |sum_e prod_others - c x_i^{m}| = {float(np.max(np.abs(y - cst * x ** m))):.3g} (c = {cst!r})")
+        return False
+    _, k_own, table, broke = own_hec(sp.E, sp.n, m, x0, HEC_ITER, HEC_TOL)
+    ctx.count("hec_passes_%s" % ("le_30" if k_own <= 30 else "31_60" if k_own <= 60 else "61_100" if broke else "exhausted"))
+    if drv is not None and passes is not None and passes > 0 and not borderline(table, HEC_TOL):
+        a = drv.batch([table_line("heccount", HEC_ITER, HEC_TOL, table)])[0]
+        if a != f"{passes} {1 if broke else 0}":
+            ctx.disagree(case, f"HEC_centrality called apply {passes} times; the model's loop (max_iter=100, tol=1e-6) on the distances of the "
+                               f"documented iteration from the same start answers {a!r} (passes, stopped by the test)")
+    if not broke:
+        ctx.count("hec_budget_exhausted")
+        return False
+    # C20_hec_residual_sharp: |y_j - c x_j^m| <= c m M^(m-1) |x_new_j - x_j| for entries in [0, M]; |x_new - x|_2 <= tol at the stop
+    M = float(max(np.max(x), np.max(xn)))
+    bound = cst * m * M ** (m - 1) * HEC_TOL
+    if resid > bound * (1 + 1e-6) + 1e-15 or dist > HEC_TOL * (1 + 1e-6) + 1e-15:
+        ctx.violation(case, f"HEC (default arguments): |(sum_e prod_others)_j - c x_j^{m}|_2 = {resid:.4g} (c = {cst:.6g}), |x - step(x)|_2 = {dist:.4g}; "
+                            f"the documented tol=1e-6 guarantees <= {bound:.4g} resp. <= 1e-6, and the documented iteration from the same start "
+                            f"stops after {k_own} <= {HEC_ITER} passes")
+    return True
+
+
 def check_uniform(ctx, drv, case):
+    n, k = case["n"], case["k"]
+    vals = Values()
+    keys = []
+    first = True
+    for tag, h, exp in each_instance(ctx, case, uniform_instances(case)):
+        icase = {**case, "instance": tag} if case.get("via") else case
+        got = listing(ctx, icase, tag, h, exp)
+        if got is None:
+            continue
+        nodes, E = got
+        if sorted(nodes) != list(range(n)):
+            ctx.violation(icase, f"the object ({tag}) has nodes {sorted(nodes)}, not 0..{n - 1}")
+            continue
+        keys.append((tag, sorted(E)))
+        check_uniform_obj(ctx, drv, icase, h, [tuple(e) for e in h.get_edges()], n, k, vals, first)
+        first = False
+        ctx.count("uniform_instance_" + tag.replace(" ", "_"))
+    ctx.case(repr(("uniform", n, case.get("via"), keys)), vals.nontrivial(), sample=case)
+    ctx.count(f"uniform_k{k}")
+    ctx.count("uniform_family_" + str(case.get("family", "random")))
+    ctx.count("uniform_via_" + str(case.get("via") or "fresh"))
+
+
+def run_default(ctx, case, ec, fn, name, h, n, fixed=None):
+    """one call with DEFAULT arguments; the random start and the number of passes are observed"""
+    with CountPasses(ec) as cp:
+        if fixed is None:
+            with RecordStart() as rs:
+                r = guard(fn, h)
+            x0 = rs.starts[0] if len(rs.starts) == 1 and getattr(rs.starts[0], "shape", None) == (n,) else None
+        else:
+            with FixedStart(fixed):
+                r = guard(fn, h)
+            x0 = fixed
+    v = as_vec(ctx, case, name, r, n)
+    return v, x0, (cp.dots if fn is ec.CEC_centrality else cp.applies)
+
+
+def check_uniform_obj(ctx, drv, case, h, E, n, k, vals, full):
     import numpy as np
     from hypergraphx import Hypergraph
     from hypergraphx.measures import eigen_centralities as ec
-    n, k, edges = case["n"], case["k"], [tuple(e) for e in case["edges"]]
-    vals = Values()
-    got = guard(lambda: Hypergraph(edges))
-    if got[0] != "ok":
-        ctx.violation(case, f"building the hypergraph raised {got[1]}")
-        return
-    h = got[1]
-    E = [tuple(e) for e in h.get_edges()]
-    key = repr(("uniform", n, sorted(E)))
-    W = np.zeros((n, n))
-    for e in E:
-        for a in e:
-            for b in e:
-                if a != b:
-                    W[a, b] += 1
-    lam_max = float(np.max(np.linalg.eigvalsh(W)))
-
-    def applied(x):
-        y = np.zeros(n)
-        for e in E:
-            for a in e:
-                y[a] += np.prod([x[b] for b in e if b != a])
-        return y
-    starts = ctx.scale(3, 6)
+    sp = Spectrum(n, k, E)
+    slow = n > 25
+    starts = (ctx.scale(3, 5) if not slow else 2) if full else 1
     np.random.seed(case["seed"])
     cec_runs, hec_runs = [], []
     for st in range(starts):
-        c = as_vec(ctx, {**case, "start": st}, "CEC_centrality", guard(ec.CEC_centrality, h), n)
-        if c is not None:
+        scase = {**case, "start": st}
+        c, x0, passes = run_default(ctx, scase, ec, ec.CEC_centrality, "CEC_centrality", h, n)
+        if c is not None and judge_cec(ctx, drv if st == 0 else None, scase, sp, c, x0, passes, vals):
             cec_runs.append(c)
-            lam = float(c @ W @ c)
-            res = float(np.linalg.norm(W @ c - lam * c))
-            if not (np.all(c > 0) and abs(np.linalg.norm(c) - 1) <= 1e-9):
-                ctx.violation({**case, "start": st}, f"CEC is not a positive unit vector: {c.tolist()}")
-            elif res > 1e-5 * max(1.0, lam) or abs(lam - lam_max) > 1e-5 * max(1.0, lam_max):
-                ctx.violation({**case, "start": st}, f"CEC: |W c - lambda c| = {res:.3g}, lambda = {lam!r}, lambda_max = {lam_max!r}")
-            vals.add(c.tolist())
-        x = as_vec(ctx, {**case, "start": st}, "HEC_centrality", guard(ec.HEC_centrality, h), n)
-        converged = "not converge" not in LAST_OUT[0]
-        if not converged:
-            ctx.count("hec_not_converged")
-        if x is not None:
-            hec_runs.append(x)
-            if not (np.all(x > 0) and abs(np.sum(x) - 1) <= 1e-9):
-                ctx.violation({**case, "start": st}, f"HEC is not a positive vector of sum 1: {x.tolist()}")
-            else:
-                m = k - 1
-                y = applied(x)
-                xm = x ** m
-                cst = float(np.sum(y ** (1.0 / m)) ** m)      # the constant of C20_hec_fixed_point
-                cls = float(np.sum(y) / np.sum(xm))           # the best common multiple
-                res = min(float(np.max(np.abs(y - cst * xm))), float(np.max(np.abs(y - cls * xm))))
-                if res > 1e-5:
-                    ctx.violation({**case, "start": st}, f"HEC: max_i |sum_e prod_others - c x_i^{m}| = {res:.3g} (c = {cst!r})")
-                # C20_hec_residual: at a stop with |x - x_new|_2 <= tol every residual is <= c m tol
-                bound = cst * m * 1e-6
-                if converged and float(np.max(np.abs(y - cst * xm))) > 1.01 * bound + 1e-13:
-                    ctx.disagree({**case, "start": st}, f"HEC stop rule: residual {float(np.max(np.abs(y - cst * xm))):.3g} exceeds the "
-                                                        f"bound c m tol = {bound:.3g} proved for the model (C20_hec_residual)")
-            vals.add(x.tolist())
-    for nm, runs in (("CEC", cec_runs), ("HEC", hec_runs)):
-        for r in runs[1:]:
-            if np.max(np.abs(r - runs[0])) > 1e-3:
-                ctx.violation(case, f"{nm}: two random starts give different vectors {runs[0].tolist()} / {r.tolist()}")
+        if st < (1 if slow and not full else starts):
+            x, x0, passes = run_default(ctx, scase, ec, ec.HEC_centrality, "HEC_centrality", h, n)
+            if x is not None and judge_hec(ctx, drv if st == 0 else None, scase, sp, x, x0, passes, vals):
+                hec_runs.append(x)
+    for r in cec_runs[1:]:
+        if 1 - sp.rho >= 1e-3 and np.max(np.abs(r - cec_runs[0])) > 4 * CEC_TOL / (1 - sp.rho) + 1e-9:
+            ctx.violation(case, f"CEC: two random starts, both within the documented budget, give vectors that differ by {np.max(np.abs(r - cec_runs[0])):.3g} "
+                                f"(spectral gap 1 - |lambda_2|/lambda_max = {1 - sp.rho:.3g}): {cec_runs[0].tolist()} / {r.tolist()}")
+    for r in hec_runs[1:]:
+        # no spectral-gap bound is at hand for the HEC map: the stopping test can fire far from the fixed point on nearly reducible
+        # hypergraphs (tiny steps), so agreement of two starts is demanded on the small random hypergraphs only
+        if case.get("family", "random") == "random" and np.max(np.abs(r - hec_runs[0])) > 1e-3:
+            ctx.violation(case, f"HEC: two random starts give different vectors {hec_runs[0].tolist()} / {r.tolist()}")
+    if not full:
+        return
 
-    # relabelling by a permutation, the random start carried along
+    # relabelling by a permutation, the random start carried along (default arguments, the dyadic start judged as well)
     perm = list(range(n))
     ctx.rng.shuffle(perm)
     x0 = [ctx.rng.randint(1, 15) / 16 for _ in range(n)]
@@ -771,21 +1588,20 @@ def check_uniform(ctx, drv, case):
     for i in range(n):
         x0p[perm[i]] = x0[i]
     pcase = {**case, "perm": perm, "x0": x0}
-    hp = guard(lambda: Hypergraph([tuple(perm[a] for a in e) for e in edges]))
+    hp = guard(lambda: Hypergraph([tuple(perm[a] for a in e) for e in E]))
     if hp[0] != "ok":
         ctx.violation(pcase, f"building the relabelled hypergraph raised {hp[1]}")
     else:
-        for nm, fn in (("CEC_centrality", ec.CEC_centrality), ("HEC_centrality", ec.HEC_centrality)):
-            with FixedStart(x0):
-                a = as_vec(ctx, pcase, nm, guard(fn, h), n)
+        for nm, fn, judge in (("CEC_centrality", ec.CEC_centrality, judge_cec), ("HEC_centrality", ec.HEC_centrality, judge_hec)):
+            a, _, passes = run_default(ctx, pcase, ec, fn, nm, h, n, fixed=x0)
+            if a is not None:
+                judge(ctx, None, pcase, sp, a, np.array(x0, dtype=float), passes, vals)
             with FixedStart(x0p):
                 b = as_vec(ctx, pcase, nm + " (relabelled)", guard(fn, hp[1]), n)
             if a is not None and b is not None:
                 if any(abs(b[perm[i]] - a[i]) > 1e-9 for i in range(n)):
                     ctx.violation(pcase, f"{nm}: values are not carried along by the permutation (same start carried along): "
                                          f"{a.tolist()} vs {b.tolist()}")
-    ctx.case(key, vals.nontrivial(), sample=case)
-    ctx.count(f"uniform_k{k}")
 
     # --- correspondence: apply, W, one step of each iteration from a dyadic start
     if drv is None:
@@ -842,16 +1658,185 @@ def check_uniform(ctx, drv, case):
                 ctx.disagree(pcase, f"one HEC step: model {hm.tolist()}, implementation {r2.tolist()}")
 
 
+
+# ------------------------------------------------------------------------------------------
+# stream 4: sub-hypergraph centrality on dense / large hypergraphs (large spectral radius)
+
+def dense_ops(case):
+    """(fresh operations, history) of a dense case, over the labels"""
+    lab = case["lab"]
+
+    def le(e):
+        return [dense_label(lab, v) for v in e]
+    base = dense_edges(case)
+    iso = [["add_node", dense_label(lab, v)] for v in case.get("iso", [])]
+    fresh = [["add_edge", le(e)] for e in base] + iso
+    temp = [le(e) for e in case.get("temp", [])]
+    pre = [["add_edge", e] for e in temp[:1]] + [["add_edge", le(e)] for e in base[:len(base) // 2]] + [["add_edge", e] for e in temp[1:]] \
+        + [["add_edge", le(e)] for e in base[len(base) // 2:]] + iso + [["rm_edge", e] for e in temp]
+    for e in case.get("readd", []):
+        pre += [["rm_edge", le(e)], ["add_edge", le(e)]]
+    return fresh, pre
+
+
+def dense_instances(case):
+    from hypergraphx import Hypergraph
+    fresh, pre = dense_ops(case)
+    lab = case["lab"]
+    if not case.get("via"):
+        def gen():
+            edges = [tuple(o[1]) for o in fresh if o[0] == "add_edge"]
+            h = Hypergraph(edges)
+            apply_static(h, [o for o in fresh if o[0] == "add_node"])
+            yield "fresh", h, sim_static(fresh)
+        return gen()
+    post = [[o[0], [dense_label(lab, v) for v in o[1]]] for o in case.get("post", [])]
+    return instances({"via": case["via"], "pre": pre, "post": post}, Hypergraph, apply_static, sim_static, [], None)
+
+
+def subhg_judge(ctx, case, h, nodes, edges, vals):
+    """subhypergraph_centrality(h) against log diag expm(A); returns (values by node, tolerance by node, judged nodes) or None"""
+    import numpy as np
+    from hypergraphx.measures.sub_hypergraph_centrality import subhypergraph_centrality
+    srt = sorted(nodes)
+    if not srt:
+        ctx.count("dense_empty_object")
+        return None
+    A = adjacency_of(srt, edges)
+    want = log_diag_expm(A)
+    second, radius = eigh_route(A)
+    tol = subhg_tolerance(want, radius)
+    ctx.count("dense_radius_%s" % ("lt_100" if radius < 100 else "100_700" if radius < 700 else "700_2000" if radius < 2000 else "ge_2000"))
+    # judged: well-conditioned nodes on which the two references of the harness agree
+    judged = [i for i in range(len(srt)) if np.isfinite(want[i]) and tol[i] <= 1e-3 and abs(second[i] - want[i]) <= tol[i]]
+    ctx.count("dense_nodes_judged", len(judged))
+    ctx.count("dense_nodes_ill_conditioned", int(np.sum(tol > 1e-3)))
+    ctx.count("dense_nodes_reference_not_settled", len(srt) - len(judged) - int(np.sum(tol > 1e-3)))
+    with np.errstate(all="ignore"):
+        r = guard(subhypergraph_centrality, h)
+    if r[0] != "ok":
+        ctx.violation(case, f"subhypergraph_centrality raised {r[1]} (adjacency spectral radius {radius:.6g})")
+        return None
+    try:
+        got = np.asarray(r[1], dtype=float).reshape(-1)
+    except Exception as e:  # noqa: BLE001
+        ctx.violation(case, f"subhypergraph_centrality returned {type(r[1]).__name__}: {e}")
+        return None
+    if got.shape != want.shape:
+        ctx.violation(case, f"subhypergraph_centrality returned {got.shape[0]} values for {len(srt)} nodes")
+        return None
+    bad = [i for i in range(len(srt)) if not np.isfinite(got[i])] + [i for i in judged if not abs(got[i] - want[i]) <= tol[i]]
+    if bad:
+        i = bad[0]
+        ctx.violation(case, f"subhypergraph_centrality: node {srt[i]!r} gets {got[i]!r}, log (expm A)_ii = {want[i]!r} by subtraction-free scaling and "
+                            f"squaring and {second[i]!r} by an own eigh + log-sum-exp (adjacency spectral radius {radius:.6g}, {len(set(bad))} of {len(srt)} "
+                            f"nodes not finite or beyond the tolerance {tol[i]:.3g})")
+        return None
+    vals.add(got.tolist())
+    return dict(zip(srt, got)), dict(zip(srt, tol)), [srt[i] for i in judged]
+
+
+def check_dense(ctx, drv, case):
+    import numpy as np
+    from hypergraphx import Hypergraph
+    vals = Values()
+    keys, first = [], None
+    for tag, h, exp in each_instance(ctx, case, dense_instances(case)):
+        icase = {**case, "instance": tag} if case.get("via") else case
+        got = listing(ctx, icase, tag, h, exp)
+        if got is None:
+            continue
+        nodes, edges = got
+        keys.append((tag, len(nodes), hash(tuple(sorted(map(repr, edges))))))
+        res = subhg_judge(ctx, icase, h, nodes, edges, vals)
+        if first is None and res is not None:
+            first = (res, nodes, edges)
+        ctx.count("dense_instance_" + tag.replace(" ", "_"))
+    if first is not None:
+        # relabelling by a random permutation of the labels: the values move with the nodes
+        (base, tol, judged), nodes, edges = first
+        srt = sorted(nodes)
+        rr = random.Random(case.get("sel", 0) + 17)
+        perm = list(range(len(srt)))
+        rr.shuffle(perm)
+        relabel = {x: srt[perm[i]] for i, x in enumerate(srt)}
+        g2 = guard(lambda: Hypergraph([tuple(relabel[x] for x in e) for e in edges]))
+        if g2[0] != "ok":
+            ctx.violation({**case, "relabelled": True}, f"building the relabelled hypergraph raised {g2[1]}")
+        else:
+            h2 = g2[1]
+            for x in nodes:
+                h2.add_node(relabel[x])
+            from hypergraphx.measures.sub_hypergraph_centrality import subhypergraph_centrality
+            with np.errstate(all="ignore"):
+                r = guard(subhypergraph_centrality, h2)
+            if r[0] != "ok":
+                ctx.violation({**case, "relabelled": True}, f"subhypergraph_centrality on the relabelled hypergraph raised {r[1]}")
+            else:
+                v2 = np.asarray(r[1], dtype=float).reshape(-1)
+                d2 = dict(zip(srt, v2)) if len(v2) == len(srt) else {}
+                bad = [x for x in judged if not abs(d2.get(relabel[x], math.nan) - base[x]) <= 2 * tol[x]]
+                if bad:
+                    ctx.violation({**case, "relabelled": True}, f"subhypergraph_centrality: the value of node {bad[0]!r} ({base[bad[0]]!r}) is not carried along by the "
+                                                                 f"permutation of the labels ({d2.get(relabel[bad[0]])!r})")
+    ctx.case(repr(("dense", case.get("via"), keys)), vals.nontrivial(), sample=case)
+    ctx.count("dense_via_" + str(case.get("via") or "fresh"))
+
+
+# the eigh route loses the nodes whose weight in the dominant eigenvector is below machine precision: a complete core
+# (all hyperedges of sizes 2..5 on 13 nodes, radius 2784) with a pendant path of 6 pairs
+ILL_CONDITIONED = {"kind": "dense", "core": 13, "sizes": [2, 3, 4, 5], "keep": 1.0, "bigs": [], "sel": 0, "lab": "int", "iso": [],
+                   "extra": [[0, 13], [13, 14], [14, 15], [15, 16], [16, 17], [17, 18]]}
+
+
+def ill_conditioned_witness(ctx):
+    """unchanged tree: the last node of the path gets 2691.6 where log (expm A)_ii = 2686.3.  Counted in the evidence; printed as
+    KNOWN-FINDING once an entry (property C20, class containing 'ill-conditioned') is listed in known_findings.json"""
+    import numpy as np
+    from hypergraphx import Hypergraph
+    from hypergraphx.measures.sub_hypergraph_centrality import subhypergraph_centrality
+    edges = [tuple(dense_label("int", v) for v in e) for e in dense_edges(ILL_CONDITIONED)]
+    r = guard(lambda: np.asarray(subhypergraph_centrality(Hypergraph(edges)), dtype=float).reshape(-1))
+    if r[0] != "ok":
+        return
+    nodes = sorted({x for e in edges for x in e})
+    want = log_diag_expm(adjacency_of(nodes, edges))
+    err = float(np.max(np.abs(r[1] - want))) if r[1].shape == want.shape else math.inf
+    if err > 1e-3:
+        ctx.count("subhg_ill_conditioned_witness_reproduced")
+        ent = [f for f in getattr(ctx, "known_findings", []) or [] if f.get("property") == "C20" and "ill-conditioned" in str(f.get("class", ""))]
+        if ent:
+            ctx.known(ent[0].get("id"), f"call-site class 'ill-conditioned eigh route': complete core on 13 nodes + pendant path of 6 pairs, "
+                                        f"max |subhypergraph_centrality - log diag expm(A)| = {err:.3g}")
+
+
 # ------------------------------------------------------------------------------------------
 
 def check_case(ctx, drv, case):
+    """a result of an unexpected shape (a changed implementation) must not stop the run: it is reported, the run goes on"""
+    try:
+        check_case_(ctx, drv, case)
+    except Exception as e:  # noqa: BLE001
+        import traceback
+        where = traceback.extract_tb(e.__traceback__)[-1]
+        ctx.disagree(case, f"the check of this case could not be completed: {type(e).__name__}: {e} (harness line {where.lineno}); "
+                           f"some result of the implementation has an unexpected shape")
+
+
+def check_case_(ctx, drv, case):
     kind = case.get("kind")
     if kind == "static":
         check_static(ctx, drv, case)
     elif kind == "temporal":
         check_temporal(ctx, drv, case)
+    elif kind == "dense":
+        check_dense(ctx, drv, case)
     else:
         check_uniform(ctx, drv, case)
+
+
+def _chain(k, L, ov=1):
+    return [tuple(range(i * (k - ov), i * (k - ov) + k)) for i in range(L)]
 
 
 FIXED = [
@@ -859,17 +1844,34 @@ FIXED = [
     {"kind": "temporal", "labels": [1, 2, 3, 4], "edges": [(1, 2, 3), (2, 4), (1, 4)], "times": [1, 1, 2]},
     {"kind": "temporal", "labels": ["ANNE", "BOB", "c", "d"], "edges": [("ANNE", "BOB", "c"), ("BOB", "d"), ("ANNE", "d")], "times": [1, 1, 2]},
     {"kind": "static", "labels": ["ANNE", "E1", "N0", "x"], "edges": [("ANNE", "E1"), ("E1", "N0", "x"), ("x",)], "isolated": ["N0"], "iso_first": True},
+    # one hyperedge with more than 710 members (+ pendant hyperedges, a second component, an isolated node): radius ~ 760
+    {"kind": "dense", "core": 0, "sizes": [], "keep": 1.0, "bigs": [[0, 760]], "sel": 1, "lab": "int", "iso": [770],
+     "extra": [[0, 760], [760, 761, 762], [5, 762], [765, 766]]},
+    # all hyperedges of sizes 2..5 on 11 nodes: radius 1300
+    {"kind": "dense", "core": 11, "sizes": [2, 3, 4, 5], "keep": 1.0, "bigs": [], "sel": 2, "lab": "str", "iso": [], "extra": [[3, 11], [11, 12]]},
+    # slow mixing: a 3-uniform chain of 20 hyperedges, a 4-uniform chain with overlap 2
+    {"kind": "uniform", "family": "chain", "n": 41, "k": 3, "edges": _chain(3, 20), "seed": 5},
+    {"kind": "uniform", "family": "chain", "n": 18, "k": 4, "edges": _chain(4, 8, 2), "seed": 6},
 ]
 
 
 def run(ctx):
     drv = ctx.driver() if ctx.model_available else None
+    ill_conditioned_witness(ctx)
     for case in FIXED:
         check_case(ctx, drv, case)
-    n = ctx.scale(300, 15000)
+    n = ctx.scale(250, 12000)
+    cap = ctx.scale(450, 1500)
     for i in range(n):
-        r = i % 5
-        case = gen_static(ctx.rng) if r in (0, 1) else gen_temporal(ctx.rng) if r in (2, 3) else gen_uniform(ctx.rng)
+        r = i % 10
+        if r in (0, 1, 2):
+            case = gen_static(ctx.rng)
+        elif r in (3, 4, 5):
+            case = gen_temporal(ctx.rng)
+        elif r in (6, 7):
+            case = gen_uniform(ctx.rng)
+        else:
+            case = gen_dense(ctx.rng, cap)
         check_case(ctx, drv, case)
         if ctx.too_many() or (ctx.time_left() is not None and ctx.time_left() < 8):
             ctx.count("stopped_by_budget")
@@ -878,7 +1880,10 @@ def run(ctx):
 
 def _tuplify(case):
     case = dict(case)
-    case["edges"] = [tuple(e) for e in case["edges"]]
+    if "edges" in case:
+        case["edges"] = [tuple(e) for e in case["edges"]]
+    for k in ("instance", "s", "start", "line", "relabelled"):
+        case.pop(k, None)
     return case
 
 
